@@ -74,6 +74,10 @@ def run(ctx):
     _parse_pure(ctx)
     _emit_model(ctx)
     _value_param(ctx)
+    # typed scalar values (numbers, positions, booleans, addresses ...) survive the value text
+    from .. import codecmodel
+    codecmodel.report(ctx, "C01/SCALARS", codecmodel.explore_scalars, codecmodel.SCALAR_LAWS,
+                      ctx.model.cls("prop.vFloat").loc(), 30)
     _wire_models(ctx)
     _registry_names(ctx)
     _codec(ctx)
